@@ -200,4 +200,39 @@ theorem Helo_DecodeMsg_is_model (recv : Helo) (b : Bytes) :
   simp only [Helo_DecodeMsg]
   sk_helo Path.stream
 
+/-! ### EntryList decoders -/
+
+theorem resizeTo_length (n : Nat) (l : List EntryExt) : (resizeTo n l).length = n := by
+  simp [resizeTo]; omega
+
+/-- one pass of the regenerated loop body on any element is the model's entry decoder (which ignores what the element held) -/
+theorem entry_body (p : Path) (e : EntryExt) (b : Bytes) :
+    execs EntryExtF p [.read .sz .arrayHeader, .ite (.szNe 2) [.retErr], .read .Timestamp .eventTime, .read .Record .intf]
+      (fun _ e' b' => .ok e' b') 0 e b = EntryExt.unmarshal p {} b := by
+  simp only [EntryExtF, EntryExt.unmarshal]; sk_slice
+
+theorem mapEl_eq_readEntries (p : Path) (l : List EntryExt) (b : Bytes) :
+    mapEl p [.read .sz .arrayHeader, .ite (.szNe 2) [.retErr], .read .Timestamp .eventTime, .read .Record .intf] l b
+      = readEntries p l.length b := by
+  induction l generalizing b with
+  | nil => rfl
+  | cons e es ih =>
+    simp only [mapEl, readEntries, List.length_cons, entry_body]
+    apply Res.bind_congr; intro e' b1
+    rw [ih]
+
+theorem EntryList_UnmarshalMsg_is_model (recv : List EntryExt) (b : Bytes) :
+    runL .bytes EntryList_UnmarshalMsg recv b = EntryList.unmarshal .bytes b := by
+  simp only [runL, EntryList_UnmarshalMsg, execL, exec, runPrim, EntryList.unmarshal, mapEl_eq_readEntries, resizeTo_length,
+    Res.bind_bind', Res.map_eq_bind, Res.ok_bind']
+  apply Res.bind_congr; intro n b1
+  exact Res.bind_ok_id _
+
+theorem EntryList_DecodeMsg_is_model (recv : List EntryExt) (b : Bytes) :
+    runL .stream EntryList_DecodeMsg recv b = EntryList.unmarshal .stream b := by
+  simp only [runL, EntryList_DecodeMsg, execL, exec, runPrim, EntryList.unmarshal, mapEl_eq_readEntries, resizeTo_length,
+    Res.bind_bind', Res.map_eq_bind, Res.ok_bind']
+  apply Res.bind_congr; intro n b1
+  exact Res.bind_ok_id _
+
 end FV.Tie
